@@ -24,7 +24,21 @@ def expected_rg(coord, ts=TS):
     return rows
 
 
-def render(bbox, size, gen, ts=TS):
+OCEAN = (7, 7, 7)
+
+
+def is_ocean(col, row_from_top):
+    """every third diagonal of tiles is 'ocean': one constant colour whatever the fetch generation, so that
+    single-colour linking (shared files) comes into play"""
+    return (col + row_from_top) % 3 == 0
+
+
+def is_ocean_tile(coord):
+    x, y, z = coord
+    return is_ocean(x, (1 << z) - 1 - y)
+
+
+def render(bbox, size, gen, ts=TS, ocean=False):
     """raw RGB bytes for a query"""
     w, h = size
     res = (bbox[2] - bbox[0]) / float(w)
@@ -34,21 +48,29 @@ def render(bbox, size, gen, ts=TS):
     k = 0
     g = gen & 255
     for j in range(h):
-        gy = (gy0 + j) & 255
+        gyy = gy0 + j
+        gy = gyy & 255
         for i in range(w):
-            out[k] = (gx0 + i) & 255
-            out[k + 1] = gy
-            out[k + 2] = g
+            if ocean and is_ocean((gx0 + i) // ts, gyy // ts):
+                out[k], out[k + 1], out[k + 2] = OCEAN
+            else:
+                out[k] = (gx0 + i) & 255
+                out[k + 1] = gy
+                out[k + 2] = g
             k += 3
     return bytes(out)
 
 
-def check_tile_image(img, coord, ts=TS):
+def check_tile_image(img, coord, ts=TS, ocean=False):
     """returns (ok, generation or None, message)"""
     img = img.convert('RGB')
     if img.size != (ts, ts):
         return False, None, 'size %r' % (img.size,)
     data = img.tobytes()
+    if ocean and is_ocean_tile(coord):
+        if data != bytes(OCEAN) * (ts * ts):
+            return False, None, 'ocean tile is not the constant ocean colour'
+        return True, None, ''
     exp = expected_rg(coord, ts)
     gens = set()
     k = 0
@@ -127,5 +149,5 @@ class SimSource(object):
         if sched is not None:
             sched.check_alive()
         entry['ok'] = True
-        img = Image.frombytes('RGB', tuple(query.size), render(query.bbox, query.size, gen))
+        img = Image.frombytes('RGB', tuple(query.size), render(query.bbox, query.size, gen, ocean=bool(sh.get('ocean'))))
         return ImageSource(img, size=tuple(query.size), image_opts=self.image_opts, cacheable=True)
